@@ -71,11 +71,11 @@ func (b *backoff) next(attempt int) time.Duration {
 	durf := minf * math.Pow(1.5, float64(attempt))
 	durf = durf + rand.Float64()*minf
 
-	delay := time.Duration(durf)
-
-	if delay > b.maxDelay {
+	// compare before converting: for large attempt counts durf exceeds the
+	// int64 range and the conversion would yield a negative duration
+	if durf > float64(b.maxDelay) {
 		return b.maxDelay
 	}
 
-	return delay
+	return time.Duration(durf)
 }
